@@ -842,3 +842,108 @@ def into_owned_fieldwise(ctx, rule, path_pat, floor):
                                     ok = True
                 R.check(ok, rule, "%s:%s%s" % (fkey(b), fname, "" if len(aggs) == 1 else "@arm%d" % [x[0] for x in aggs].index(bi)), "%s.%s comes from self.%s" % (ret.split("::")[-1], fname, fname), "%s fills `%s` from %s instead of (only) self.%s: the owned value differs from the borrowed one" % (short(b.path), fname, sorted({leaf_str(l)[:70] for l in lv if not (l.kind == "field" and l.detail["idx"] == 1)}), fname), "%s:%d" % (b.file, st["sp"][0]))
     R.floor(rule, n, floor, "struct-returning into_owned functions")
+
+
+def wire_decoders_plain(ctx, rule, type_pats, floor):
+    """the serde-derived decoders of the wire types stay what `#[derive(Deserialize)]` makes them: (a) they call nothing
+    but serde/std - no `deserialize_with` validation hook that makes one classification attempt stricter than its
+    sibling (a call that fails as Request but passes as Notification is silently dropped); (b) they tolerate unknown
+    members (an IgnoredAny read exists, `unknown_field` is never raised) - a peer may add members, and a stricter
+    decoder makes the message fall through to the next, wrong, classification."""
+    F, R = ctx.F, ctx.R
+    n = 0
+    for label, pat in type_pats:
+        bodies = [b for p_, b in F.bodies.items() if re.search(r"Deserialize<'de> for " + pat, p_) and b.kind in ("Fn", "AssocFn", "Closure")]
+        if not bodies:
+            R.anchor_lost(rule, "derived Deserialize impl of %s" % label)
+            continue
+        n += 1
+        hooks = set()
+        ignored = False
+        unknown = []
+        for b in bodies:
+            R.fn(b)
+            for c in b.calls:
+                nm = c.name() or ""
+                cal = c.callee or ""
+                if re.search(r"Error::unknown_field$", nm) or re.search(r"Error::unknown_field$", cal):
+                    unknown.append(c)
+                if re.search(r"next_value$", cal) and c.ga and "IgnoredAny" in c.ga[-1]:
+                    ignored = True
+                for x in (nm,):
+                    if re.match(r"^<?jsonrpsee_", x) and "::_serde::" not in x and not re.search(r"Deserialize<'de> for " + pat, x):
+                        hooks.add(short(x))
+        R.check(not hooks, rule, "%s:no-validation-hook" % label, "the decoder of %s is plain serde" % label, "the decoder of %s calls %s while decoding: a member that this decoder now rejects is still accepted by the sibling classification (a call with an id then passes as a notification and is never answered, or a notification is routed as something else)" % (label, sorted(hooks)), "%s:%d" % (bodies[0].file, bodies[0].lo))
+        R.check(ignored and not unknown, rule, "%s:tolerates-unknown-members" % label, "%s ignores members it does not know" % label, "the decoder of %s rejects unknown members (deny_unknown_fields): a message with an additional member fails this classification and falls through to the next one" % label, "%s:%d" % (bodies[0].file, bodies[0].lo))
+    R.floor(rule, n, floor, "derived wire decoders")
+
+
+def builder_field_crossing(ctx, rule, path_pat, floor, only_fields=None):
+    """wherever a method rebuilds a value of its own type from `self` (builders that change a type parameter:
+    set_rpc_middleware, set_http_middleware, to_service_builder, ...), a field that is copied from `self` is copied from
+    the *same* field: `max_buffer_capacity_per_subscription: self.max_concurrent_requests` type-checks (both are usize)
+    and silently replaces one configured value by another."""
+    F, R = ctx.F, ctx.R
+    tr = ctx.tracer(follow_callers=False, follow_fields=False, inline_calls=False)
+    n = 0
+    for b in F.real_bodies():
+        if not re.search(path_pat, b.path) or is_test_body(b) or b.kind != "AssocFn" or b.argc < 1:
+            continue
+        if b.path.endswith("::clone") or b.path.endswith("::default"):
+            continue
+        self_ty = b.locals[1]["ty"].lstrip("&").replace("mut ", "").split("<")[0]
+        for bi, blk in enumerate(b.blocks):
+            if blk.get("cleanup") or bi not in b.reachable:
+                continue
+            for st in blk["st"]:
+                if st["s"] != "assign" or st["rv"]["k"] != "agg" or st["rv"].get("ak") != "adt" or len(st["rv"]["fields"]) < 2:
+                    continue
+                if st["rv"]["adt"] != self_ty:
+                    continue
+                n += 1
+                R.fn(b)
+                for fname, op in zip(st["rv"]["fields"], st["rv"]["ops"]):
+                    if only_fields and fname not in only_fields:
+                        continue
+                    lv = tr.origins(b, op)
+                    src = {l.detail["fields"][0][1] for l in lv if l.kind == "field" and l.detail["idx"] == 1 and l.detail["fields"] and l.detail["fields"][0][0] == self_ty}
+                    crossed = sorted(x for x in src if x != fname)
+                    if crossed:
+                        R.bad(rule, "%s:%s<-%s" % (fkey(b), fname, ",".join(crossed)), "%s rebuilds %s with `%s` taken from self.%s: the value configured for `%s` is silently replaced by another setting" % (short(b.path), self_ty.split("::")[-1], fname, "/".join(crossed), fname), "%s:%d" % (b.file, st["sp"][0]))
+    R.ok(rule, "no-field-crossing", "%d self-rebuilding constructions inspected, every copied field comes from the same field" % n)
+    R.floor(rule, n, floor, "constructions of the method's own type from self")
+
+
+def setter_arg_crossing(ctx, rule, path_pat, floor):
+    """a builder that forwards its settings to another builder through same-named setters (`.max_request_size(self.
+    max_request_size)`) forwards each setting to its own setter: the argument of a call `x.<name>(..)` / `x.set_<name>(..)`
+    that is copied from a field of `self` is copied from `self.<name>`."""
+    F, R = ctx.F, ctx.R
+    tr = ctx.tracer(follow_callers=False, follow_fields=False, inline_calls=False)
+    n = 0
+    for b in F.real_bodies():
+        if not re.search(path_pat, b.path) or is_test_body(b) or b.argc < 1:
+            continue
+        root = b
+        while root.kind == "Closure" and F.parent_body(root) is not None:
+            root = F.parent_body(root)
+        if root.kind != "AssocFn" or root.argc < 1:
+            continue
+        self_ty = root.locals[1]["ty"].lstrip("&").replace("mut ", "").split("<")[0]
+        adt = F.adt(self_ty)
+        if adt is None or adt["kind"] != "Struct":
+            continue
+        fields = {f_["n"] for f_ in adt["variants"][0]["fields"]}
+        for c in b.calls:
+            nm = (c.name() or "").split("::")[-1]
+            target = nm if nm in fields else (nm[4:] if nm.startswith("set_") and nm[4:] in fields else None)
+            if target is None or len(c.args) != 2:
+                continue
+            lv = ctx.tracer(follow_callers=False, follow_fields=False).origins(b, c.args[1])
+            src = {l.detail["fields"][0][1] for l in lv if l.kind == "field" and l.detail["fields"] and l.detail["fields"][0][0] == self_ty}
+            if not src:
+                continue
+            n += 1
+            crossed = sorted(x for x in src if x != target)
+            R.check(not crossed, rule, "%s:%s(self.%s)" % (fkey(b), nm, ",".join(sorted(src))), "%s forwards self.%s to %s()" % (short(b.path), target, nm), "%s passes self.%s to the setter `%s`: the setting `%s` is configured from another setting's value" % (short(b.path), "/".join(crossed), nm, target), where(c))
+    R.floor(rule, n, floor, "settings forwarded through same-named setters")
